@@ -1062,7 +1062,10 @@ def run(ck):
     ck.rule = ("strings: every string of length <= %d over the %d-symbol alphabet %r, %d random strings of length 4-5 "
                "over it, %d random strings over the XML Char production (ASCII, markup, entity fragments, "
                "whitespace incl. NBSP/NEL/LS, BMP, astral, boundary code points) up to length 200, plus fixed probes; "
-               "each as element text and attribute value of a standalone Element (pretty/plain alternating), a "
+               "each as element text (and, for every string of length <= 2, every 4th of length 3 and all longer ones, as "
+               "attribute value) of a standalone Element (pretty/plain alternating); Text objects carrying the escaped "
+               "flag through both serialisers; attribute values through PrefixNormalizer on trees with random prefix "
+               "declarations; a "
                "sample as arguments of a generated operation under 4 client configurations (5 positions per call) and, "
                "encoded by the independent writer under a random mix of literal/entity/decimal/hex/CDATA forms, as "
                "reply content (5 positions per reply); random standalone trees under both serialisers re-read by "
